@@ -62,7 +62,7 @@ def gen_project(rng):
                 s["place"] = "loop"
             if any("outsource(" in str(o) for o in s["obs"]) or "external(" in str(s.get("old")):
                 continue
-            if "PM(" in str(s["obs"]) or "PM(" in str(s.get("old")) or "PM" in str(s["obs"]):
+            if re.search(r"\bPM\b", str(s["obs"]) + " " + str(s.get("old"))):
                 continue  # pydantic models cannot be instantiated in run_inline's bare exec namespace ("class not fully defined")
             sites.append(s)
         if not sites:
